@@ -112,6 +112,13 @@ example : onesOf (swapGate 3) =
     [(0, 0), (1, 3), (2, 6), (3, 1), (4, 4), (5, 7), (6, 2), (7, 5), (8, 8)] := by decide
 example : entry (swapGate 3) (1 * 3 + 2) (2 * 3 + 1) = some 1 := by decide   -- |1,2⟩⟨2,1|
 
+/-- Mixed dimensions: the row (column) index `a * dB + b` of `numpy.kron(A, B)` is split by the
+    C-order `reshape` of `NumericOperator.to_tensor` into the digits `(a, b)`: the first tensor leg of
+    the gate belongs to the first dictionary key, the second leg to the second key. -/
+theorem kron_index_digits (dB a b : Nat) (hb : b < dB) :
+    (a * dB + b) / dB = a ∧ (a * dB + b) % dB = b :=
+  digits_of_index hb
+
 /-! ### (iii) leg bookkeeping of a gate application -/
 
 /-- **Two-site gate.**  `P` (identifier `p`, parent `pp` or root, children `A ++ c :: B`, `oP` physical
@@ -170,7 +177,31 @@ theorem single_site_gate_legs (id : Nat) (par : Option Nat) (ch : List Nat) (o :
             (physL id o).zip ((List.range o).map Leg.gin)) :=
   singleSite_mkNode id par ch o
 
+/-- **Tree level** (every node carries one physical leg, as under TEBD): in a tree with distinct
+    identifiers that contains `p` with children `A ++ c :: B` and its child `c`, a two-site gate on the
+    pair - named in either order - completes, keeps every identifier and every parent, and permutes
+    child lists only (the pair's child moves to the front of `p`'s list). -/
+theorem two_site_tree_structure (t : List TNode) (p c : Nat) (pp : Option Nat) (A B K : List Nat)
+    (hnd : (t.map (·.id)).Nodup)
+    (hP : (⟨p, pp, A ++ c :: B⟩ : TNode) ∈ t) (hC : (⟨c, some p, K⟩ : TNode) ∈ t)
+    (h : PairOK p c pp A B K) :
+    applyPair t p c = some (afterPair t p c A B) ∧
+    applyPair t c p = some (afterPair t p c A B) ∧
+    (afterPair t p c A B).map (·.id) = t.map (·.id) ∧
+    (afterPair t p c A B).map (·.parent) = t.map (·.parent) ∧
+    (∀ y ∈ afterPair t p c A B, ∃ x ∈ t, x.id = y.id ∧ x.parent = y.parent ∧
+        y.children.Perm x.children) := by
+  have h1 := applyPair_both t p c pp A B K hnd hP hC h
+  have h2 := afterPair_structure t p c pp A B hnd hP
+  exact ⟨h1.1, h1.2, h2.1, h2.2.1, h2.2.2⟩
+
 /-! ### non-vacuity -/
+
+-- a four-node tree 0 - {1 - {3}, 2}: gates on (0,2) then (3,1) (child named first)
+example : applyPairs [⟨0, none, [1, 2]⟩, ⟨1, some 0, [3]⟩, ⟨2, some 0, []⟩, ⟨3, some 1, []⟩]
+    [(0, 2), (3, 1)] =
+    some [⟨0, none, [2, 1]⟩, ⟨1, some 0, [3]⟩, ⟨2, some 0, []⟩, ⟨3, some 1, []⟩] := by decide
+
 
 example : PairOK 1 2 (some 0) [5] [6] [7] := by unfold PairOK; decide
 example : PairOK 1 2 none [] [] [] := by unfold PairOK; decide
